@@ -115,7 +115,7 @@ def make_case(rng, quick=True):
     pre = []
     if present and rng.random() < 0.35:
         for ix in rng.sample(sorted(present), rng.randint(1, min(2, len(present)))):
-            if rng.random() < 0.3:
+            if rng.random() < 0.4:
                 v = rng.randrange(size_dict[ix])
                 tree.remove_ind_(ix, project=v)
                 pre.append((ix, v))
@@ -129,6 +129,46 @@ OVERHEADS = [Fraction(1, 2), Fraction(1), Fraction(9, 8), Fraction(5, 4), Fracti
              Fraction(3), Fraction(4), Fraction(8), Fraction(64)]
 
 
+NONDYADIC = [0.9, 1.1, 1.3, 1.7, 2.3, 3.14159, 1.0000001, 0.3333333333333333, 5.1, 10.01]
+
+
+def boundary_overhead(rng, tree):
+    import math
+    from cotengra.slicer import ContractionCosts
+    try:
+        c = ContractionCosts.from_contraction_tree(tree)
+        cands = sorted(c._where)
+        if not cands or c.original_flops == 0:
+            return 1.5
+        c1 = c
+        for ix in rng.sample(cands, min(len(cands), rng.choice([1, 1, 2]))):
+            if ix not in c1._where:
+                continue
+            c1._flop_reductions[ix], c1._write_reductions[ix]   # what score_slice_index does first
+            c1 = c1.remove(ix)
+        f = c1.overhead
+        k = rng.choice([0, 0, 1, -1])
+        if k == 1:
+            f = math.nextafter(f, math.inf)
+        elif k == -1:
+            f = math.nextafter(f, 0.0)
+        return f if f > 0 else 1.5
+    except Exception:
+        return 1.5
+
+
+FP53 = 2 ** 53
+FB = 2 ** 1000
+
+
+def over_safe(cost, t):
+    """Python twin of Model/SlicerCosts.v over_safe_b (pre-filter; the Coq evaluation is the one that counts)"""
+    a, b = cost.total_flops, cost.original_flops
+    num, den = t.numerator, t.denominator
+    return (1 <= a < FB and 1 <= b < FB and den > 0 and
+            (a * den <= num * b or num * b * FP53 < a * den * (FP53 - 1)))
+
+
 def make_params(rng, tree):
     kinds = rng.choice([("size",)] * 4 + [("slices",)] * 3 + [("overhead",)] * 3 +
                        [("size", "slices"), ("size", "overhead"), ("slices", "overhead"),
@@ -140,7 +180,15 @@ def make_params(rng, tree):
     if "slices" in kinds:
         tg["target_slices"] = rng.choice([1, 2, 2, 3, 4, 4, 6, 8, 9, 12, 16, 30])
     if "overhead" in kinds:
-        tg["target_overhead"] = rng.choice(OVERHEADS)
+        r = rng.random()
+        if r < 0.45:
+            tg["target_overhead"] = rng.choice(OVERHEADS)
+        elif r < 0.75:
+            # non-dyadic decimal targets: the code sees the nearest float, the model its exact value
+            tg["target_overhead"] = Fraction(rng.choice(NONDYADIC))
+        else:
+            # boundary targets: the float overhead of an actual one-index slicing (or a neighbour)
+            tg["target_overhead"] = Fraction(boundary_overhead(rng, tree))
     ao = rng.choice([True, True, False, False, "only", "only"])
     minimize = rng.choice(["flops", "size", "write", "combo", "limit", "combo-64", "limit-4"])
     temperature = rng.choice([0.0, 0.01, 0.01, 0.3, 1.0, 5.0])
@@ -221,7 +269,11 @@ def targets_hold(tg, size, flops_after, flops_before, mult_after, mult_before):
         bad.append("size %r > target_size %r" % (size, tg["target_size"]))
     if "target_slices" in tg and not (mult_after >= tg["target_slices"] * mult_before):
         bad.append("slices %r (on top of %r) < target_slices %r" % (mult_after, mult_before, tg["target_slices"]))
-    if "target_overhead" in tg and not (Fraction(flops_after) <= tg["target_overhead"] * flops_before):
+    t = tg.get("target_overhead")
+    # a violation only when the exact quotient exceeds the target by more than the rounding error of
+    # the code's float division (inside that band the float test may legitimately say "<=")
+    if t is not None and (t.numerator * flops_before * FP53
+                          < flops_after * t.denominator * (FP53 - 1)):
         bad.append("total flops %r > target_overhead %s x %r" % (flops_after, tg["target_overhead"], flops_before))
     return bad
 
@@ -282,6 +334,15 @@ def run_case(ctx, rng, ci, cases, records, scratch_cases):
     ctx.count("search:" + {0: "returned", 1: "RuntimeError(no valid index)", 2: "KeyError(exhausted index)",
                             3: "ValueError(max of empty)", 4: "ValueError(no valid slicing)"}[kind])
 
+    # ---- float vs exact overhead comparison: only cases where both provably agree ----
+    if "target_overhead" in tg:
+        ctx.count("overhead_target:" + ("dyadic" if tg["target_overhead"].denominator <= 64 else "non-dyadic"))
+        if not all(over_safe(c, tg["target_overhead"]) for c in sf.costs.values()):
+            # the float quotient is within rounding error of the target: the code's answer is
+            # then a matter of float rounding, outside the model (and outside the exact oracle)
+            ctx.count("overhead_unsafe(skipped)")
+            return
+
     # ---- model replay (evaluated inside Coq) --------------------------------------
     I = gen.IDX
     oracles = [[I[x] for x in t["choices"]] for t in trials]
@@ -321,9 +382,10 @@ def run_case(ctx, rng, ci, cases, records, scratch_cases):
     records.append(rec)
     # certified from-scratch judgement of every cached table of the model
     scratch_cases.append(("scratch%d" % ci,
-                          "(hyps_b %s %s %s, search_scratch_b %s %s %s %s %s)" % (
-                              netl, sll, tl, netl, sll, tl, fdl, coq(oracles) if oracles else "[]"),
-                          "(true, true)"))
+                          "(hyps_b %s %s %s, (search_scratch_b %s %s %s %s %s, search_over_safe_b %s %s))" % (
+                              netl, sll, tl, netl, sll, tl, fdl, coq(oracles) if oracles else "[]",
+                              fdl, coq(oracles) if oracles else "[]"),
+                          "(true, (true, true))"))
     if stray_all:
         ctx.fail("ContractionCosts keeps reduction/_where entries for indices no longer in size_dict: %r"
                  % sorted(set(stray_all)), rec, found_input=False)
@@ -375,8 +437,17 @@ def run_case(ctx, rng, ci, cases, records, scratch_cases):
 
     # ---- tree.slice post-conditions ---------------------------------------------
     for reslice in (False, True):
-        if reslice and not (pre and ci % 2 == 0):
+        if reslice and not pre:
             continue
+        tag = "slice(reslice)" if reslice else "slice"
+        if reslice:
+            ctx.count("reslice:cases")
+            if any(v is not None for _, v in pre):
+                ctx.count("reslice:pre_projected")
+            for k in tg:
+                ctx.count("reslice:" + k)
+        elif any(v is not None for _, v in pre):
+            ctx.count("slice:pre_projected")
         try:
             t3 = tree.slice(allow_outer=ao, seed=seed, minimize=minimize, temperature=temperature,
                             max_repeats=repeats, reslice=reslice, **fl(tg))
@@ -392,6 +463,10 @@ def run_case(ctx, rng, ci, cases, records, scratch_cases):
             ctx.count("slice%s:raised" % ("(reslice)" if reslice else ""))
             continue
         ctx.count("slice%s:returned" % ("(reslice)" if reslice else ""))
+        if any(v is not None for _, v in pre):
+            ctx.count("%s:returned:pre_projected" % tag)
+            if "target_overhead" in tg:
+                ctx.count("%s:returned:pre_projected:overhead" % tag)
         bad = []
         st3 = stats_of(t3)
         after = list(t3.sliced_inds)
